@@ -155,7 +155,7 @@ __CPROVER_ensures(gej_ok(out_nonce))
 int g_mm_n; size_t g_mm_count; const void *g_mm_cbdata; secp256k1_ecmult_multi_callback *g_mm_cb; const secp256k1_scalar *g_mm_gsc; secp256k1_gej g_mm_r; int g_mm_ret;
 #endif
 static int secp256k1_ecmult_multi_var(const secp256k1_callback* error_callback, secp256k1_scratch *scratch, secp256k1_gej *r, const secp256k1_scalar *inp_g_sc, secp256k1_ecmult_multi_callback cb, void *cbdata, size_t n)
-__CPROVER_requires(__CPROVER_w_ok(r, sizeof(*r)) && scratch == NULL)
+__CPROVER_requires(__CPROVER_w_ok(r, sizeof(*r)))
 #ifdef LOG_ECMULT_MULTI
 __CPROVER_assigns(*r, g_mm_n, g_mm_count, g_mm_cbdata, g_mm_cb, g_mm_gsc, g_mm_r, g_mm_ret)
 __CPROVER_ensures(g_mm_n == __CPROVER_old(g_mm_n) + 1 && g_mm_count == n && g_mm_cbdata == cbdata && g_mm_cb == cb && g_mm_gsc == inp_g_sc && GEJ_EQ(g_mm_r, *r) && g_mm_ret == __CPROVER_return_value)
